@@ -132,7 +132,9 @@ Definition multi_must (x : cell) : bool :=
 Definition multi_may (x : cell) : bool := (1 <? ca x) || (1 <? cb x).
 Definition unph_must (x : cell) : bool :=
   allele (ca x) && allele (cb x) && negb (ca x =? cb x) && (cp x =? 0).
-Definition unph_may (x : cell) : bool := negb (ca x =? cb x) && (cp x =? 0).
+(* "raises iff some heterozygous call is unphased": a call with a missing allele is not a
+   heterozygote, so there is no lenient reading here *)
+Definition unph_may (x : cell) : bool := unph_must x.
 
 Definition same_but_rows (keep : list bool) (p t : gtab) : bool :=
   list_eqb Z.eqb (g_samples t) (filter_mask keep (g_samples p))
